@@ -1693,6 +1693,41 @@ def fam_evx(case, c):
                 c.untouched(W, name + ':rejected-call-modified-W', 'W after rejected ' + name, sub)
 
 
+@family('genk0')
+def fam_genk0(case, c):
+    """orgqr / ungqr / orglq / unglq with k = 0 reflectors (empty tau or explicit k=0): Q = I, so A is overwritten with the
+    leading columns (rows) of the identity."""
+    from cvxopt import lapack, matrix
+    tc = case['tc']
+    for name in (('orgqr', 'ungqr', 'orglq', 'unglq') if tc == 'd' else ('ungqr', 'unglq')):
+        lq = name.endswith('lq')
+        fn = getattr(lapack, name)
+        for (m, n) in (((1, 2), (2, 3), (2, 2), (1, 1)) if lq else ((2, 1), (3, 2), (2, 2), (1, 1))):
+            for how in ('empty-tau', 'k=0'):
+                A = matrix([complex(2 + i, 1 - i) if tc == 'z' else 2.0 + i for i in range(m * n)], (m, n), tc)
+                tau = matrix(0.0, (0, 1), tc) if how == 'empty-tau' else matrix(1.0, (min(m, n), 1), tc)
+                kw = {} if how == 'empty-tau' else {'k': 0}
+                sub = {'f': name, 'm': m, 'n': n, 'tc': tc, 'how': how}
+                st, _ = c.call(name, fn, (A, tau), kw, 'ok', name + ':k=0', sub)
+                if st != 'ok':
+                    continue
+                want = [(1.0 if i == j else 0.0) for j in range(n) for i in range(m)]
+                got = list(A)
+                if any(abs(complex(g) - w) > 1e-14 for g, w in zip(got, want)):
+                    c.bad(name + ':k=0:not-identity', '%s with no reflectors (%s) on a %dx%d matrix leaves %r, the leading part of '
+                          'the identity %r expected' % (name, how, m, n, got, want), sub)
+                else:
+                    c.count(name + ':k=0:ok')
+
+
+def cases_genk0(tier, seed):
+    for tc in 'dz':
+        yield {'f': 'genk0', 'tc': tc, 'seed': seed}
+
+
+CASEGENS.append(cases_genk0)
+
+
 def cases_evx(tier, seed):
     for name in ('syevx', 'syevr', 'heevx', 'heevr'):
         for tc in ('d' if name[0] == 's' else 'dz'):
